@@ -3,11 +3,12 @@ from ..core.model import Program
 from ..core.report import CheckContext
 from ..core.resolve import Resolver
 from ..rules import bookkeeping as bk
-from .common import run_control
+from .common import run_control, generic_rules
 
 
 def analyse(ctx: CheckContext, p: Program):
     r = Resolver(p)
+    generic_rules(ctx, p, r, "C06")
     funcs = r.pipeline_cone()
     bk.check_pinch_roles(ctx, p, r, funcs)
     bk.check_symmetric_collapse(ctx, p, r, funcs)
@@ -17,11 +18,12 @@ def run(ctx: CheckContext):
     p = Program()
     analyse(ctx, p)
     ctx.floor("ROLE", 12)
-    ctx.floor("ROLE-SYM", 1)
     ctx.assumptions += [
         "decides that hot and cold pinch rows/temperatures are never swapped on the way from detection to the record (role read from identifiers containing hot/cold); "
         "which rows are selected (first-zero/last-zero logic, tolerance) is numeric and NOT decided",
     ]
+    run_control(ctx, "C06/zero-pinch-dropped", analyse, p.root, "OpenPinch/classes/energy_target.py",
+                "        elif isinstance(self.cold_pinch, float):", "        elif self.cold_pinch:", "TRUTHY")
     run_control(ctx, "C06/unpack-swapped", analyse, p.root, "OpenPinch/analysis/direct_integration_entry.py",
                 "hot_pinch, cold_pinch = pt.pinch_temperatures()", "cold_pinch, hot_pinch = pt.pinch_temperatures()", "ROLE")
     run_control(ctx, "C06/record-swapped", analyse, p.root, "OpenPinch/classes/energy_target.py",
